@@ -402,9 +402,14 @@ pub fn composed(depth: usize) -> Vec<GenQuery> {
 
 /// hand-written E-sql list followed by the composed terms (quick: depth 1, thorough: depth 3)
 pub fn queries_plus(tier: Tier) -> Vec<GenQuery> {
+    queries_plus_depth(tier, tier.pick(2, 3))
+}
+
+/// hand-written E-sql list followed by the composed terms of nesting depth <= depth
+pub fn queries_plus_depth(tier: Tier, depth: usize) -> Vec<GenQuery> {
     let mut v = queries(tier);
     let mut seen: std::collections::BTreeSet<String> = v.iter().map(|g| g.sql.clone()).collect();
-    for mut g in composed(tier.pick(2, 3)) {
+    for mut g in composed(depth) {
         if seen.insert(g.sql.clone()) {
             // quick: nested terms on the instances with <= 2 rows in total
             if tier == Tier::Quick && !g.subqueries.is_empty() {
